@@ -166,6 +166,16 @@ def checkMisc (case impl : List String) : List Fail :=
        | none => []) ++
       (if ab ≠ hx then [⟨"prop", "C14", "raw-form-differs", s!"GAS: as_bytes {ab} serialised {hx}"⟩] else [])
     | _, _, _, _, _, _ => [⟨"corr", "C04", "parse", "gaspci"⟩]
+  | ["lens"], obs =>
+    -- the static `len()` helpers (rsdp, gas, facs, tcpa server) against the serialised size
+    (obs.zip ["Rsdp", "GAS", "FACS", "TpmServer1_2"]).filterMap fun (o, nm) =>
+      match o.splitOn "." with
+      | [a, b] => if a = b then none else some ⟨"prop", "C02", "len-helper", s!"{nm}::len() = {a}, serialised size {b}"⟩
+      | _ => some ⟨"corr", "C02", "parse", "lens"⟩
+  | ["pathfrom", _], [a, b] =>
+    if a = b then [] else [⟨"prop", "C15", "path-from-vs-new", s!"Path::new gives {a}, Path::from gives {b}"⟩]
+  | ["pkgdefault", _], [a, b] =>
+    if a = b then [] else [⟨"prop", "C15", "pkgbuilder-default-vs-new", s!"new: {a} default: {b}"⟩]
   | _, _ => [⟨"corr", "C04", "parse", "misc"⟩]
 
 end Drv
